@@ -17,7 +17,7 @@ use serde_json::Value;
 
 fn usage() -> ! {
     eprintln!("usage: splmc check <ID> <quick|thorough> | splmc replay <path>");
-    std::process::exit(2)
+    exit_process(2)
 }
 
 fn run_check(id: &str, tier: Tier) -> Option<Report> {
@@ -82,16 +82,17 @@ fn main() {
     match args[1].as_str() {
         "check" => {
             let id = args[2].as_str();
+            install_exit_guard(id);
             let tier = match args.get(3).map(|s| s.as_str()) {
                 Some("thorough") => Tier::Thorough,
                 Some("quick") | None => Tier::Quick,
                 _ => usage(),
             };
             match run_check(id, tier) {
-                Some(rep) => std::process::exit(rep.finish()),
+                Some(rep) => exit_process(rep.finish()),
                 None => {
                     eprintln!("MACHINERY-ERROR unknown check {}", id);
-                    std::process::exit(2)
+                    exit_process(2)
                 }
             }
         }
@@ -107,25 +108,25 @@ fn main() {
                 Ok(d) => d,
                 Err(e) => {
                     eprintln!("MACHINERY-ERROR {}", e);
-                    std::process::exit(2)
+                    exit_process(2)
                 }
             };
             let id = doc["property"].as_str().unwrap_or("").to_string();
             match replay_case(&id, &doc["case"]) {
                 Some(fails) if fails.is_empty() => {
                     println!("replay: case passes on the current tree");
-                    std::process::exit(0)
+                    exit_process(0)
                 }
                 Some(fails) => {
                     for f in &fails {
                         println!("VIOLATION property={} replay={}", id, path.display());
                         println!("  key={} detail={}", f.key, truncate(&f.detail, 600));
                     }
-                    std::process::exit(1)
+                    exit_process(1)
                 }
                 None => {
                     eprintln!("MACHINERY-ERROR unknown property {}", id);
-                    std::process::exit(2)
+                    exit_process(2)
                 }
             }
         }
